@@ -69,10 +69,13 @@ def make_cases(rng, k, collide=None):
         else:
             while True:
                 rep, vol = rng.choice(REPS), rng.randint(1, 500)
-                if not any(c["rep"] == rep and c["vol"] == vol for c in cases):
+                if not any(c["rep"].replace(" ", "") == rep.replace(" ", "") and c["vol"] == vol for c in cases):
                     break
         page = rng.randint(1, 900)
-        while any(c["rep"] == rep and c["vol"] == vol and abs(c["page"] - page) < 1 for c in cases):
+        # distinct cases must be distinct documents: 'U. S.' is a spelling of 'U.S.', so compare the
+        # reporter without blanks (two cases with equal normalised reporter, volume and page are one case)
+        nrep = lambda r: r.replace(" ", "")  # noqa
+        while any(nrep(c["rep"]) == nrep(rep) and c["vol"] == vol and abs(c["page"] - page) < 1 for c in cases):
             page += 1
         cases.append(dict(P=P, D=D, rep=rep, vol=vol, page=page, cited=False))
     return cases
@@ -131,7 +134,7 @@ class Scenario:
 
     def unique_rv(self, i):
         c = self.cases[i]
-        return not any(j != i and d["cited"] and d["rep"] == c["rep"] and d["vol"] == c["vol"]
+        return not any(j != i and d["cited"] and d["rep"].replace(" ", "") == c["rep"].replace(" ", "") and d["vol"] == c["vol"]
                        for j, d in enumerate(self.cases))
 
     def supra(self, i):
@@ -293,7 +296,7 @@ def judge(sc, rec, case):
     rec.count("bare_short_forms", getattr(sc, "bare", 0))
     rec.count("id_range_pins", getattr(sc, "range_pins", 0))
     rec.count("accented_names", sum(1 for c in cases for n in (c["P"], c["D"]) if not n.isascii()))
-    if len({(c["rep"], c["vol"]) for c in cases if c["cited"]}) < sum(1 for c in cases if c["cited"]):
+    if len({(c["rep"].replace(" ", ""), c["vol"]) for c in cases if c["cited"]}) < sum(1 for c in cases if c["cited"]):
         rec.count("colliding_scenarios")
     if any(r[1] != "full" for r in refs):
         rec.nontrivial(text)
